@@ -2,6 +2,7 @@ import PyPhysim.Proofs.C08
 import PyPhysim.Proofs.C08Matrix
 import PyPhysim.Proofs.C08Links
 import PyPhysim.Proofs.C08Gen
+import PyPhysim.Proofs.C08Buf
 
 /-!
 # C08 — multi-user channel matrix views stay coherent across any sequence of updates
@@ -651,5 +652,135 @@ example :
   decide
 
 end effects
+
+/-! ## R15 — distinct values that are merely close
+
+No comparison of the model has a tolerance, no setter has an "unchanged → skip" path, no view is
+looked up by a rounded key: the model is a function of the *exact* values.  The theorems say what
+an `np.isclose` shortcut, an absolute threshold or a rounded cache key in the source would break
+(the correspondence and the oracles run the real classes on pairs of values that differ by one
+part in 2^26, by 2^-65 in absolute terms, or that are all below 1e-8). -/
+
+/-- **A setter takes effect for every new value.**  Whatever was set before — however close to the
+    new value — the second of two accepted calls of `set_pathloss`, `noise_var =`, `set_post_filter`
+    or `init_from_channel_matrix` (same antenna layout) decides alone: the object is exactly the one
+    the second call alone would have produced from the original state.  There is no "the value did
+    not change (much), keep what we have". -/
+theorem setter_takes_effect_for_every_new_value (F : Fns α) (st : State α) :
+    (∀ (p q : Option (Mat α)) (pe qe : Mat α), setPLCheck Cfg.fixed st p pe = none →
+        setPLCheck Cfg.fixed st q qe = none →
+        step Cfg.fixed F (step Cfg.fixed F st (.setPL p pe)).1 (.setPL q qe) = step Cfg.fixed F st (.setPL q qe))
+    ∧ (∀ (v w : Option α), (∀ x, w = some x → F.nonneg x = true) →
+        (step Cfg.fixed F (step Cfg.fixed F st (.setNoise v)).1 (.setNoise w)).1
+          = (step Cfg.fixed F st (.setNoise w)).1)
+    ∧ (∀ (v w : Option (List (Mat α))),
+        step Cfg.fixed F (step Cfg.fixed F st (.setW v)).1 (.setW w) = step Cfg.fixed F st (.setW w))
+    ∧ (∀ (M M' : Mat α) (nr nt : List Nat) (K : Nat) (ntE : List Nat),
+        initCheck M (fullLayout st.isExt nr nt K ntE).1 (fullLayout st.isExt nr nt K ntE).2.1
+          (fullLayout st.isExt nr nt K ntE).2.2.1 = true →
+        initCheck M' (fullLayout st.isExt nr nt K ntE).1 (fullLayout st.isExt nr nt K ntE).2.1
+          (fullLayout st.isExt nr nt K ntE).2.2.1 = true →
+        step Cfg.fixed F (step Cfg.fixed F st (.init M nr nt K ntE)).1 (.init M' nr nt K ntE)
+          = step Cfg.fixed F st (.init M' nr nt K ntE)) :=
+  ⟨fun p q pe qe h1 h2 => step_setPL_setPL F st p pe q qe h1 h2,
+   fun v w hw => step_setNoise_setNoise F st v w hw,
+   fun v w => step_setW_setW F st v w,
+   fun M M' nr nt K ntE h h' => step_init_init F st M M' nr nt K ntE h h'⟩
+
+/-- **What is read back is the exact value** (`lookup_exact`): after an accepted `set_pathloss(p[, pe])`
+    the `pathloss` property returns exactly `p` (`hstack([p, pe])` on the ExtInt class), after
+    `noise_var = v` the `noise_var` property returns exactly `v`, after `init_from_channel_matrix(M, …)`
+    without a path loss `big_H` returns exactly `M` — so two *different* arguments, however close,
+    give different observable results. -/
+theorem lookup_exact (F : Fns α) (st : State α) :
+    (∀ (p pe : Mat α), setPLCheck Cfg.fixed st (some p) pe = none →
+        (step Cfg.fixed F (step Cfg.fixed F st (.setPL (some p) pe)).1 .readPL).2
+          = .optMat (some (if st.isExt then List.zipWith (· ++ ·) p pe else p)))
+    ∧ (∀ v : α, F.nonneg v = true →
+        (step Cfg.fixed F (step Cfg.fixed F st (.setNoise (some v))).1 .readNoiseVar).2 = .optScalar (some v))
+    ∧ (∀ (M : Mat α) (nr nt : List Nat) (K : Nat) (ntE : List Nat), st.pl = none →
+        initCheck M (fullLayout st.isExt nr nt K ntE).1 (fullLayout st.isExt nr nt K ntE).2.1
+          (fullLayout st.isExt nr nt K ntE).2.2.1 = true →
+        (step Cfg.fixed F (step Cfg.fixed F st (.init M nr nt K ntE)).1 .readBigH).2 = .mat M)
+    ∧ (∀ a b : Mat α, a ≠ b → (Out.optMat (some a) : Out α) ≠ .optMat (some b))
+    ∧ (∀ a b : α, a ≠ b → (Out.optScalar (some a) : Out α) ≠ .optScalar (some b))
+    ∧ (∀ a b : Mat α, a ≠ b → (Out.mat a : Out α) ≠ .mat b) := by
+  refine ⟨?_, ?_, ?_, ?_, ?_, ?_⟩
+  · intro p pe hok
+    have := (set_pathloss_sets_current F st p pe hok).1
+    simp only [step] at this ⊢
+    rw [this]
+  · intro v hv
+    simp [step, doSetNoise, hv]
+  · intro M nr nt K ntE hpl hok
+    simp only [step, doInit, hok, if_true, install, Cfg.fixed, hpl, readBigH]
+  · intro a b hab h; exact hab (by injection h with h; injection h)
+  · intro a b hab h; exact hab (by injection h with h; injection h)
+  · intro a b hab h; exact hab (by injection h)
+
+/-- **No magnitude threshold on the noise variance.**  Once `noise_var = v` was accepted — for every
+    `v ≥ 0`, `0.0`, `1e-15`, … — a transmission adds the noise that was drawn and reports exactly it as
+    `last_noise`; only `noise_var = None` switches the noise off. -/
+theorem every_accepted_noise_variance_adds_noise (F : Fns α) (isExt : Bool) (ops : List (Op α)) (v : α)
+    (hv : F.nonneg v = true) (X n : Mat α) :
+    let st := (step Cfg.fixed F (reach F isExt ops) (.setNoise (some v))).1
+    (step Cfg.fixed F st (.corruptCat X (some n))).2 = .rx [specReceivedCat F st X (some n)] (some n)
+    ∧ (step Cfg.fixed F st (.corruptCat X (some n))).1.lastNoise = some n := by
+  intro st
+  have hc : Coherent F st := step_coherent F _ _ (reach_coherent F isExt ops)
+  have hnv : st.noiseVar = some v := by simp [st, step, doSetNoise, hv]
+  have h := doCorruptCat_spec F st X (some n) hc (fun _ => rfl)
+  simp only [specLastNoise, hnv] at h
+  exact ⟨h.1, h.2.1⟩
+
+/-! ## R16 — argument identity and buffer reuse
+
+`Model/C08Buf.lean`: a caller that owns its arrays (`Heap`), refills them in place between calls
+(`BOp.refill`) and hands them — one array possibly for several parameters — to the channel object
+(`BOp.call mk`, the arguments being read from the arrays at call time). -/
+
+/-- **Results depend only on the contents at call time.**  A caller program with refilled / shared
+    arrays gives exactly the outputs (and leaves exactly the object) of the value history in which every
+    call receives the contents its arrays had when it was made; in particular two programs whose arrays
+    hold equal contents at every call — the same array object refilled, or a different array object each
+    time — are indistinguishable. -/
+theorem results_depend_on_contents_at_call_time (cfg : Cfg) (F : Fns α) (prog prog' : List (Buf.BOp α))
+    (h h' : Buf.Heap α) (st : State α) :
+    Buf.bufRun cfg F (h, st) prog
+      = ((Buf.heapAfter h prog, (run cfg F st (Buf.resolve h prog)).1), (run cfg F st (Buf.resolve h prog)).2)
+    ∧ (Buf.resolve h prog = Buf.resolve h' prog' →
+        (Buf.bufRun cfg F (h, st) prog).2 = (Buf.bufRun cfg F (h', st) prog').2
+        ∧ (Buf.bufRun cfg F (h, st) prog).1.2 = (Buf.bufRun cfg F (h', st) prog').1.2) := by
+  refine ⟨Buf.bufRun_eq_run_resolve cfg F prog h st, fun he => ?_⟩
+  rw [Buf.bufRun_eq_run_resolve, Buf.bufRun_eq_run_resolve, he]
+  exact ⟨rfl, rfl⟩
+
+/-- **Earlier results are not changed by later refills, and a refill alone does nothing to the object.**
+    Whatever the caller does afterwards (`more`: refills, further calls with the same arrays), the outputs
+    of the calls already made are the first outputs of the longer program; overwriting an array without a
+    call leaves the channel object as it was. -/
+theorem later_refills_do_not_change_earlier_results (cfg : Cfg) (F : Fns α) (prog more : List (Buf.BOp α))
+    (hs : Buf.Heap α × State α) (s : Nat) (M : Mat α) :
+    (∃ later, (Buf.bufRun cfg F hs (prog ++ more)).2 = (Buf.bufRun cfg F hs prog).2 ++ later)
+    ∧ (Buf.bufStep cfg F hs (.refill s M)).1.2 = hs.2
+    ∧ (Buf.bufStep cfg F hs (.refill s M)).2 = none := by
+  refine ⟨⟨_, by rw [Buf.bufRun_append]⟩, rfl, rfl⟩
+
+/-- non-vacuity / what an identity-keyed memo would get wrong: ONE array, handed to `set_pathloss`, refilled
+    in place with close-but-different contents and handed over again — `pathloss` reports the new contents;
+    and the same array for two parameters (`set_pathloss(P, P)` on the ExtInt class) is `hstack([P, P])` -/
+example :
+    (Buf.bufRun Cfg.fixed fInt ((fun _ => []), State.init Int false)
+      [.call fun _ => .init [[1, 2], [3, 4]] [1, 1] [1, 1] 2 [],
+       .refill 0 [[4, 9], [16, 25]], .call fun h => .setPL (some (h 0)) [], .call fun _ => .readPL,
+       .refill 0 [[4, 9], [16, 26]], .call fun h => .setPL (some (h 0)) [], .call fun _ => .readPL,
+       .refill 0 [[0, 0], [0, 0]], .call fun _ => .readPL]).2
+      = [.unit, .unit, .optMat (some [[4, 9], [16, 25]]), .unit, .optMat (some [[4, 9], [16, 26]]),
+         .optMat (some [[4, 9], [16, 26]])]
+    ∧ (Buf.bufRun Cfg.fixed fInt ((fun _ => []), State.init Int true)
+      [.call fun _ => .init [[1, 2, 5, 7], [3, 4, 6, 8]] [1, 1] [1, 1] 2 [1, 1],
+       .refill 0 [[4, 1], [1, 9]], .call fun h => .setPL (some (h 0)) (h 0), .call fun _ => .readPL]).2
+      = [.unit, .unit, .optMat (some [[4, 1, 4, 1], [1, 9, 1, 9]])] := by
+  decide +kernel
 
 end PyPhysim.C08
